@@ -27,8 +27,9 @@ def main() -> int:
     ap.add_argument("--tier", default="quick")
     ap.add_argument("--scratch", help="FV_SCRATCH to reuse (development; incremental builds)")
     ap.add_argument("--props", help="override: comma separated properties to run instead of meta.property")
+    ap.add_argument("--root", default="seeded", help="directory under /verif holding <name>/patch.diff + meta.json (seeded = breaking changes, refactors = behaviour-preserving edits that must NOT raise an alarm)")
     args = ap.parse_args()
-    names = sorted(p.name for p in (HERE / "seeded").iterdir() if (p / "patch.diff").exists())
+    names = sorted(p.name for p in (HERE / args.root).iterdir() if (p / "patch.diff").exists())
     if args.only:
         keep = set(args.only.split(","))
         names = [n for n in names if n in keep]
@@ -36,7 +37,7 @@ def main() -> int:
     summary = []
     try:
         for name in names:
-            d = HERE / "seeded" / name
+            d = HERE / args.root / name
             meta = json.loads((d / "meta.json").read_text())
             props = args.props.split(",") if args.props else meta.get("checks_to_run", [meta["property"]])
             mut = root / "repo-mut"
@@ -70,7 +71,7 @@ def main() -> int:
     finally:
         shutil.rmtree(root, ignore_errors=True)
     det = sum(1 for s in summary if s.get("detected"))
-    print(f"seeded: {det}/{len(summary)} detected")
+    print(f"{args.root}: {det}/{len(summary)} raised a VIOLATION (exit 1)")
     return 0
 
 
